@@ -5,6 +5,7 @@ import (
 	"crypto/ecdh"
 	"crypto/rand"
 	"fmt"
+	"slices"
 	"strings"
 
 	"github.com/c2FmZQ/ech"
@@ -348,6 +349,50 @@ func genC11(env *core.Env, emit func(core.Case)) {
 					}
 					return ""
 				}()}}})
+	}
+	// a list followed by further bytes - a few, 65535, exactly 65536 (the declared length read modulo
+	// 2^16 would match again), 2 * 65536 of well-formed configs: nothing beyond the declared length is
+	// ever read as part of the list
+	for i := 0; i < 6 && len(valid) > 0; i++ {
+		var cfgs []ech.Config
+		for j := 0; j < i%3; j++ {
+			cfgs = append(cfgs, valid[rng.IntN(len(valid))])
+		}
+		l, err := ech.ConfigList(cfgs)
+		if err != nil {
+			continue
+		}
+		var filler []byte
+		for len(filler) < 3*65536 {
+			filler = append(filler, valid[rng.IntN(len(valid))]...)
+		}
+		for _, extra := range []int{1, 65535, 65536, 2 * 65536, 65536 + 70} {
+			// make the last filler config end exactly at `extra` where possible: pad with a final config of the right size
+			tail := slices.Clone(filler[:extra])
+			if extra%65536 == 0 {
+				// whole configs of 256 bytes each, so that the extra bytes are themselves a well-formed run
+				tail = tail[:0]
+				for len(tail) < extra {
+					sp := ech.ConfigSpec{Version: 0xfe0d, ID: uint8(rng.IntN(256)), KEM: 0x20, PublicKey: randBytes(32),
+						CipherSuites: []ech.CipherSuite{{KDF: 1, AEAD: 1}}, PublicName: []byte(strings.Repeat("b", 256-51))}
+					c, berr := sp.Bytes()
+					if berr != nil || len(c) != 256 {
+						panic(fmt.Sprintf("harness: config size %d, want 256 (%v)", len(c), berr))
+					}
+					tail = append(tail, c...)
+				}
+			}
+			in := append(slices.Clone(l), tail...)
+			got := implParseList(in)
+			want := implParseList(l)
+			w := ""
+			if got != "err" && got != want {
+				w = fmt.Sprintf("a list declaring %d bytes followed by %d more bytes parses to %d characters of specs, the list alone to %d: bytes beyond the declared length were read", len(l)-2, extra, len(got), len(want))
+			}
+			emit(core.Case{Name: fmt.Sprintf("listjunk/%d/%d", i, extra), Stream: "arbitrary", Sig: fmt.Sprintf("listjunk/%d", extra),
+				Ops: []core.Op{{Line: "cfglist-parse " + core.Hex(in[:min(len(in), 400)]), Kind: 'M', Want: implParseList(in[:min(len(in), 400)])},
+					{Kind: 'X', Note: "ParseConfigList never reads past the declared list length", Want: w}}})
+		}
 	}
 	nmut := env.Pick(3000, 100000)
 	for i := 0; i < nmut; i++ {
